@@ -8,7 +8,9 @@ the endpoint was seen to do right after it: request transmissions and returns of
 `judge` checks, clause by clause:
 * at most `1 + MAX_RETRANSMIT` transmissions per request (`tooMany`);
 * the k-th copy (k ≥ 1) not earlier than `k × ACK_TIMEOUT` after the first (`tooEarly`);
-* every copy byte-identical to the first (`notIdentical`);
+* every copy byte-identical to the first (`notIdentical`) — unless the caller edited the message it had handed to
+  the call before the request was first transmitted (the message belongs to the call until it returns; such a
+  history is outside the property's premise and only compared with the model);
 * no copy after an acknowledgement, a reset, the caller's cancellation (or context deadline) or the
   return of the call (`copyAfterStop`);
 * a call returns at most once (`doubleReturn`) and a successful return carries a response that really
@@ -77,6 +79,8 @@ structure Rec where
   cancelled : Bool := false
   returned : Bool := false
   resps : List Nat := []      -- responses that came back, oldest first
+  misused : Bool := false     -- the caller edited its message before the first transmission (while `Do` was running
+                              -- and the request was queued): precondition of the API breached, identity not judged
   deriving Repr
 
 structure JState where
@@ -101,7 +105,10 @@ def applyEv (c : Cfg) (s : JState) : Ev → JState × Option (Nat × Nat)
     ({ s with recs := s.recs.map (fun r => match r.deadline with
         | some d => if s.now + ahead > d then { r with cancelled := true } else r
         | none => r) }, none)
-  | .mut _ => (s, none)
+  | .mut id =>
+    match getRec s id with
+    | some r => if r.count = 0 && !r.returned then (setRec s { r with misused := true }, none) else (s, none)
+    | none => (s, none)
   | .cancel id =>
     match getRec s id with
     | some r => (setRec s { r with cancelled := true, stopped := true }, none)
@@ -140,7 +147,7 @@ def checkTx (c : Cfg) (s : JState) (x : Tx) : JState × Verdict :=
     if r.stopped then (s, .copyAfterStop)
     else if r.count ≥ 1 + c.maxRetransmit then (s, .tooMany)
     else if r.count ≥ 1 && x.t < r.t0 + r.count * c.ackTimeout then (s, .tooEarly)
-    else if !x.same then (s, .notIdentical)
+    else if !x.same && !r.misused then (s, .notIdentical)
     else (setRec s { r with count := r.count + 1, t0 := if r.count = 0 then x.t else r.t0 }, .ok)
 
 def checkRet (s : JState) (x : Ret) : JState × Verdict :=
